@@ -461,6 +461,59 @@ def _e1_shards(tier):
     return out
 
 
+# ----------------------------------------------------------------------------------------------
+# E3: remove_destination called while a message is being delivered
+# ----------------------------------------------------------------------------------------------
+def body_E3(ctx):
+    """Only the clause 'a removed destination receives nothing further': three registered
+    destinations; while handling its k-th message, destination r calls remove_destination(j)
+    (j may be r itself, an earlier or a later one).  From the moment that call has returned, j is
+    not called again.  (What the *other* destinations receive for the message in flight is not
+    asserted here: registry changes during a delivery are outside C08's quantifier.)"""
+    r = ctx.choose(3, "destination that removes")
+    j = ctx.choose(3, "destination that is removed")
+    k = ctx.choose(3, "on its k-th message")
+    events = []
+    state = {"removed_at": None, "error": None}
+    dests = []
+
+    def mk(idx):
+        def dest(m):
+            events.append((idx, m.get("i"), m.get("message_type")))
+            if idx == r and state["removed_at"] is None and sum(1 for e in events if e[0] == r) == k + 1:
+                try:
+                    remove_destination(dests[j])
+                except Exception as e:  # noqa
+                    state["error"] = e
+                state["removed_at"] = len(events)
+
+        return dest
+
+    dests.extend(mk(i) for i in range(3))
+    add_destinations(*dests)
+    for i in range(4):
+        try:
+            log_message("t:m", i=i)
+        except Exception as e:
+            ctx.fail("log_message raised %r while destination %d removed destination %d" % (e, r, j))
+    ctx.check(state["error"] is None, "remove_destination raised %r inside a destination", state["error"])
+    ctx.check(state["removed_at"] is not None, "the removal never happened")
+    late = [e for e in events[state["removed_at"]:] if e[0] == j]
+    ctx.check(not late, "destination %d was removed by destination %d (during message %d), remove_destination had returned, and it was still called with %r", j, r, k, late)
+    ctx.check(not any(e[2] == "eliot:destination_failure" for e in events), "a failure report appeared although no destination raised: %r", events)
+    ctx.nontrivial((r, j, k))
+    ctx.reached()
+    ctx.sample({"remover": r, "removed": j, "during_message": k, "calls": len(events)})
+
+
+def E3() -> bool:
+    """
+    post: _
+    """
+    return run(body_E3, "X", {})
+
+
+
 OBLIGATIONS = [
     Ob("L1", None, body_L1_replay, "X", desc="BufferingDestination.__call__: len' = min(len+1, 1000), content = last len' elements of old+[m] in order, loop exits - SMT encoding generated from the AST, decided by z3 and cvc5", functions=["BufferingDestination.__call__"], smt=smt_L1,
        timeout={"quick": 200, "thorough": 200}, bounds={"quick": "every pre-state with 0..1000 buffered messages (window lower bound any integer >= 0), every message; while-loop unrolled twice with an unwinding assertion"},
@@ -471,4 +524,6 @@ OBLIGATIONS = [
     Ob("E2", E2, body_E2, "X", desc="a logging thread against the thread performing the first add_destinations, line granularity in eliot/_output.py", functions=["Destinations.add", "Destinations.send", "Logger.write", "BufferingDestination.__call__"],
        shards={"quick": [{"buffered": 1, "logged": 1, "P": 2}, {"buffered": 1, "logged": 2, "P": 1}], "thorough": [{"buffered": 1, "logged": 2, "P": 2}, {"buffered": 2, "logged": 1, "P": 3}]}, twin=[{"buffered": 1, "logged": 1, "P": 2, "twin_label": "raced"}], timeout={"quick": 100, "thorough": 900},
        bounds={"quick": "1 buffered + 1 concurrently logged message with <= 2 preemptions; 1 + 2 with <= 1", "thorough": "1 + 2 with <= 2 preemptions; 2 + 1 with <= 3"}),
+    Ob("E3", E3, body_E3, "X", desc="remove_destination called from inside a destination while a message is being delivered: once it has returned the removed destination is not called again", functions=["Destinations.send", "Destinations.remove"],
+       timeout={"quick": 60, "thorough": 60}, bounds={"quick": "3 destinations; remover x removed x message number: 27 cases, 4 messages logged; only the removed destination's calls are asserted"}),
 ]
